@@ -28,6 +28,10 @@ def c04_health(op, impl, model):
     if i[6] == 6009 and m[6] == 0 and m[0] - m[1] > (1 << 20):
         return (f"C04 the initial-margin gate REJECTS a portfolio whose independently computed initial health is positive "
                 f"(recomputed: assets {m[0]} >= liabilities {m[1]}): {op}")
+    if m[6] in (0, 6009) and i[6] in (0, 6009) and i[0] < m[0] and i[9] != 0 and m[9] == 0:
+        return (f"C04 the engine discards a collateral price that the bank's own freshness / authenticity rule accepts (internal error {i[9]}) and "
+                f"values the account's assets at {i[0]} instead of {m[0]} bits: every borrow or withdrawal that leaves liabilities between the two "
+                f"is rejected for insufficient health although the independently computed initial health is positive: {op}")
     if i[6] == 0 and m[6] not in (0, 6009, 6029):
         return (f"C04 the initial-margin gate PASSES a portfolio whose initial health cannot be established from the presented oracle "
                 f"data (independent evaluation fails with error {m[6]}: a debt price is stale / unauthentic / too uncertain): {op}")
